@@ -94,7 +94,7 @@ pub fn parse(data: &str) -> Result<CtehexmlData, Error> {
         .to_string();
     let bdldata = Data::new(&entrada_grafica_lider)?;
 
-    let (factores_correccion_sistemas, sistemas) = parse_systems(&doc);
+    let (factores_correccion_sistemas, sistemas) = parse_systems(&doc)?;
 
     Ok(CtehexmlData {
         datos_generales,
